@@ -1,21 +1,19 @@
 CONSTANTS
-  Publishers = {"A"}
-  Readers = {}
+  Publishers = {"A", "B"}
+  Readers = {"r"}
   RemoteReaders = {}
   Keys <- KeysSeq
-  HasCache = FALSE
+  HasCache = TRUE
   MaxFaults = 1
-  InitEpochs = 1
+  InitEpochs = 0
   ReaderLag = 0
   RecheckEpochAfterBegin = TRUE
   FlagHeldThroughDbWrite = TRUE
   RootHashBeforeCommit = TRUE
   PrevEpochChecked = TRUE
   ReadersSeePendingEpoch = FALSE
-  RollbackReleasesFlag = TRUE
-  ExportSched = FALSE
-VIEW View
-INIT MCInit
-NEXT MCNext
-INVARIANTS AtomicFailure NoTxnLeftOpen ReturnedPairsStayPublished
+  RollbackReleasesFlag = FALSE
+SPECIFICATION FairSpec
+PROPERTIES EveryCallReturns FlagEventuallyReleased
+INVARIANTS EpochsDistinct
 CHECK_DEADLOCK FALSE
